@@ -55,8 +55,12 @@ type access struct {
 // absolute index of an array read in the body (pattern without arithmetic). One copy
 // per distinct array read that is indexed by K (+ constant offset); the copies are equivalent.
 func reindex(kind, K, lo, hi, body string, accs []access, nfr *int) string {
-	type cand struct{ heapSel, shift, full string }
-	var cands []cand
+	type cand struct {
+		heapSels    []string
+		shift, full string
+	}
+	var cands []*cand
+	byFull := map[string]*cand{}
 	seen := map[string]bool{}
 	for _, a := range accs {
 		if strings.Contains(a.heapSel, K) || strings.Contains(a.off, K) {
@@ -79,19 +83,32 @@ func reindex(kind, K, lo, hi, body string, accs []access, nfr *int) string {
 			continue
 		}
 		key := a.heapSel + "#" + a.full
-		if seen[key] || !strings.Contains(body, a.full) {
+		if seen[key] || !strings.Contains(body, "(select "+a.heapSel+" "+a.full+")") {
 			continue
 		}
 		seen[key] = true
-		cands = append(cands, cand{a.heapSel, shift, a.full})
-		if len(cands) == 3 {
-			break
+		// element reads of one struct element share the index term: one copy, alternative patterns
+		if c, ok := byFull[a.full+"#"+shift]; ok {
+			if len(c.heapSels) < 12 {
+				c.heapSels = append(c.heapSels, a.heapSel)
+			}
+			continue
 		}
+		if len(cands) == 3 {
+			continue
+		}
+		c := &cand{[]string{a.heapSel}, shift, a.full}
+		byFull[a.full+"#"+shift] = c
+		cands = append(cands, c)
 	}
-	mk := func(J, rng, b, pat string) string {
+	mk := func(J, rng, b string, pats []string) string {
 		if kind == "forall" {
-			if pat != "" {
-				return fmt.Sprintf("(forall ((%s Int)) (! %s :pattern (%s)))", J, imp(rng, b), pat)
+			if len(pats) > 0 {
+				ps := ""
+				for _, p := range pats {
+					ps += " :pattern (" + p + ")"
+				}
+				return fmt.Sprintf("(forall ((%s Int)) (! %s%s))", J, imp(rng, b), ps)
 			}
 			return fmt.Sprintf("(forall ((%s Int)) %s)", J, imp(rng, b))
 		}
@@ -99,7 +116,7 @@ func reindex(kind, K, lo, hi, body string, accs []access, nfr *int) string {
 	}
 	kform := imp(and(le(lo, K), lt(K, hi)), body)
 	if len(cands) == 0 || kind != "forall" {
-		r := mk(K, and(le(lo, K), lt(K, hi)), body, "")
+		r := mk(K, and(le(lo, K), lt(K, hi)), body, nil)
 		if kind == "forall" {
 			regFinite(r, K, lo, kform)
 		}
@@ -113,7 +130,11 @@ func reindex(kind, K, lo, hi, body string, accs []access, nfr *int) string {
 		kexpr := sub(J, c.shift)
 		b = strings.ReplaceAll(b, K, kexpr)
 		rng := and(le(add(lo, c.shift), J), lt(J, add(hi, c.shift)))
-		cp := mk(J, rng, b, "(select "+c.heapSel+" "+J+")")
+		var pats []string
+		for _, hs := range c.heapSels {
+			pats = append(pats, "(select "+hs+" "+J+")")
+		}
+		cp := mk(J, rng, b, pats)
 		if len(copies) == 0 {
 			regFinite(cp, K, lo, kform)
 		} else {
@@ -815,6 +836,61 @@ func (e *specEnv) call(n *ast.CallExpr) Val {
 			qf := fmt.Sprintf("(forall ((%s Int)) %s)", bv, imp(rng, and(fs...)))
 			regFinite(qf, bv, add(s.C[1], lo), imp(rng, and(fs...)))
 			return Val{tBool, []string{qf}}
+		case "preservedexcept":
+			// preservedexcept(s1, s2, ...): every pre-existing array of that element type other than the (old) backing
+			// arrays of s1, s2, ... is unchanged
+			var ex []Val
+			for _, a := range n.Args {
+				ex = append(ex, e.withState(e.old, func() Val { return e.eval(a) }))
+			}
+			sl0, ok := under(ex[0].T).(*types.Slice)
+			if !ok {
+				e.errorf("preservedexcept: not a slice")
+				return Val{tBool, []string{"true"}}
+			}
+			var fs2 []string
+			for _, c := range flatten(sl0.Elem()) {
+				hn := elemHeap(sl0.Elem(), c.Suffix)
+				cur := e.t.heapGet(e.cur, hn, arr2Sort(c.Sort))
+				old := e.t.heapGet(e.old, hn, arr2Sort(c.Sort))
+				e.t.nfr++
+				bv := q(fmt.Sprintf("pe!q%d", e.t.nfr))
+				conds := []string{le(bv, e.t.top(e.old))}
+				for _, x := range ex {
+					conds = append(conds, not(eq(bv, x.C[0])))
+				}
+				fs2 = append(fs2, fmt.Sprintf("(forall ((%s Int)) (! %s :pattern ((select %s %s))))", bv,
+					imp(and(conds...), eq(sel(cur, bv), sel(old, bv))), cur, bv))
+			}
+			return Val{tBool, []string{and(fs2...)}}
+		case "preservedmapsexcept":
+			mv := e.withState(e.old, func() Val { return e.eval(n.Args[0]) })
+			mt, ok := under(mv.T).(*types.Map)
+			if !ok {
+				e.errorf("preservedmapsexcept: not a map")
+				return Val{tBool, []string{"true"}}
+			}
+			var fs3 []string
+			names := []string{}
+			sorts := []string{}
+			dn, ds := mapDomHeap(mt)
+			names = append(names, dn)
+			sorts = append(sorts, ds)
+			for _, c := range flatten(mt.Elem()) {
+				vn, vs := mapValHeap(mt, c.Suffix, c.Sort)
+				names = append(names, vn)
+				sorts = append(sorts, vs)
+			}
+			for i, hn := range names {
+				e.t.eng.heapSort[hn] = sorts[i]
+				cur := e.t.heapGet(e.cur, hn, sorts[i])
+				old := e.t.heapGet(e.old, hn, sorts[i])
+				e.t.nfr++
+				bv := q(fmt.Sprintf("pm!q%d", e.t.nfr))
+				fs3 = append(fs3, fmt.Sprintf("(forall ((%s Int)) (! %s :pattern ((select %s %s))))", bv,
+					imp(and(le(bv, e.t.top(e.old)), not(eq(bv, mv.C[0]))), eq(sel(cur, bv), sel(old, bv))), cur, bv))
+			}
+			return Val{tBool, []string{and(fs3...)}}
 		case "preservedarrays":
 			// preservedarrays(s): every array (of s's element type) that existed in the pre-state is unchanged
 			sv := e.eval(n.Args[0])
@@ -868,22 +944,19 @@ func (e *specEnv) call(n *ast.CallExpr) Val {
 			sv := e.eval(n.Args[0])
 			lo, hi := e.eval(n.Args[1]).C[0], e.eval(n.Args[2]).C[0]
 			sl := under(sv.T).(*types.Slice)
-			e.t.nfr++
-			bv := q(fmt.Sprintf("u!q%d", e.t.nfr))
-			var fs []string
-			pat := ""
+			var qs []string
 			for _, c := range flatten(sl.Elem()) {
+				e.t.nfr++
+				bv := q(fmt.Sprintf("u!q%d", e.t.nfr))
 				hn := elemHeap(sl.Elem(), c.Suffix)
 				cur := sel(e.t.heapGet(e.cur, hn, arr2Sort(c.Sort)), sv.C[0])
-				fs = append(fs, eq(sel(cur, bv), sel(sel(e.t.heapGet(e.old, hn, arr2Sort(c.Sort)), sv.C[0]), bv)))
-				if pat == "" {
-					pat = sel(cur, bv)
-				}
+				body := eq(sel(cur, bv), sel(sel(e.t.heapGet(e.old, hn, arr2Sort(c.Sort)), sv.C[0]), bv))
+				rng := or(lt(bv, add(sv.C[1], lo)), le(add(sv.C[1], hi), bv))
+				qf := fmt.Sprintf("(forall ((%s Int)) (! %s :pattern (%s)))", bv, imp(rng, body), sel(cur, bv))
+				regFinite(qf, bv, sub(add(sv.C[1], lo), "3"), imp(rng, body))
+				qs = append(qs, qf)
 			}
-			rng := or(lt(bv, add(sv.C[1], lo)), le(add(sv.C[1], hi), bv))
-			qf := fmt.Sprintf("(forall ((%s Int)) (! %s :pattern (%s)))", bv, imp(rng, and(fs...)), pat)
-			regFinite(qf, bv, sub(add(sv.C[1], lo), "3"), imp(rng, and(fs...)))
-			return Val{tBool, []string{qf}}
+			return Val{tBool, []string{and(qs...)}}
 		case "haskey":
 			m, k := e.eval(n.Args[0]), e.eval(n.Args[1])
 			mt := under(m.T).(*types.Map)
